@@ -132,7 +132,15 @@ impl<Db: Database> Storage<Db> {
     }
 
     fn get_impl<T: 'static>(&self, key: Key) -> Option<&T> {
-        let source_node = self.internal.get_source_node(key)?;
+        let Some(source_node) = self.internal.get_source_node(key) else {
+            // Reading an absent source is a read, too: the caller depends on
+            // the source staying absent.
+            self.register_dependency_in_parent_memoized_fn(
+                NodeKind::AbsentSource(key),
+                self.internal.current_epoch,
+            );
+            return None;
+        };
 
         self.register_dependency_in_parent_memoized_fn(
             NodeKind::Source(key),
@@ -320,8 +328,8 @@ impl<Db: Database> InternalStorage<Db> {
         Index::new(self.source_nodes.push(Some(source_node)))
     }
 
-    /// Sets a source in the database. If there is an existing item and it does not equal
-    /// the new source, increment the current epoch.
+    /// Sets a source in the database. If there is no existing item, or there is one and it
+    /// does not equal the new source, increment the current epoch.
     fn set_source<T: DynEq>(&mut self, source: T, source_id: SourceId<T>) {
         match self.source_node_key_to_index.entry(source_id.key) {
             Entry::Occupied(occupied_entry) => {
@@ -348,8 +356,11 @@ impl<Db: Database> InternalStorage<Db> {
                 }
             }
             Entry::Vacant(vacant_entry) => {
+                // A source that appears is a change, too: memoized functions
+                // that found it absent must be re-verified.
+                let next_epoch = self.current_epoch.increment();
                 let index = self.insert_source_node(SourceNode {
-                    time_updated: self.current_epoch,
+                    time_updated: next_epoch,
                     value: Box::new(source),
                 });
                 vacant_entry.insert(index);
